@@ -18,12 +18,14 @@ def controls(s):
     return sorted(CONTROL_RE.findall(s))
 
 
-def check_quote(s, out, again=None):
-    """Returns list of failed check names for safely_quote(s) == out."""
+def check_quote(s, out, again=None, safe="/"):
+    """Returns list of failed check names for safely_quote(s) == out. `safe`: the characters the caller
+    asked to leave raw (default '/': everything urllib.parse.quote escapes is escaped)."""
     bad = []
     if not isinstance(out, str):
         return ["type"]
-    if not QUOTED_OUT_RE.match(out):
+    pat = QUOTED_OUT_RE if safe == "/" else re.compile(r"^(?:[A-Za-z0-9_.~%s-]|%%[0-9A-Fa-f]{2})*$" % re.escape(safe))
+    if not pat.match(out):
         bad.append("not-pure-escaped-ascii")
     if dec(out) != dec(s):
         bad.append("dec-changed")
@@ -121,7 +123,11 @@ class QuoteProbes(object):
             return
         s = args.get("string")
         self.ctx.count("probe-safely_quote")
-        for b in check_quote(s, ret):
+        safe = args.get("safe", "/")
+        if not isinstance(safe, str) or any(c in " %&#?\x7f" or not c.isascii() for c in safe):
+            self.ctx.viol("%s:safely_quote:unsafe-safe-argument" % self.prefix, {"fn": "safely_quote", "string": s}, {"safe": repr(safe)})
+            safe = "/"
+        for b in check_quote(s, ret, None, safe):
             self.ctx.viol("%s:safely_quote:%s" % (self.prefix, b), {"fn": "safely_quote", "string": s}, {"out": ret})
 
     def on_upper(self, args, ret):
